@@ -984,10 +984,8 @@ impl BRC20ProgEngine {
         if current_block_height - latest_valid_block_number > MAX_REORG_HISTORY_SIZE {
             return Err("Latest valid block number is too far behind current block height".into());
         }
-        if latest_valid_block_number == current_block_height {
-            return Ok(());
-        }
-
+        // Also when the target is the current height: a block under construction may already have parked
+        // transactions, and they belong to a block that is being taken back
         self.db.write_fn(|db| db.reorg(latest_valid_block_number))
     }
 
